@@ -115,8 +115,15 @@ pub fn batch_stream(run: &mut Run, rng: &mut Rng, n: usize) {
         let mode = rng.below(8);
         // how the input reaches the program: file arguments, `FROM t::'file'` (one file), or --stdin (one file)
         let (query, mut args, stdin_bytes, used): (String, Vec<String>, Option<Vec<u8>>, Vec<PathBuf>) = if mode == 0 {
-            let q = gq.text.replacen("FROM t", &format!("FROM t::'{}'", paths[0].display()), 1);
-            (q, Vec::new(), None, vec![paths[0].clone()])
+            // the file name inside the string literal is taken verbatim (C20): commas, blanks at either end, `--`, `;`, keywords
+            // and non-ASCII letters are part of the name, not syntax (no quote or backslash: those are the literal's own escapes)
+            let from_path = if rng.chance(1, 2) {
+                let name = *rng.pick(&["a,b.log", " lead.log", "trail.log ", "x --y.log", "semi;colon.log", "SELECT FROM.log", "caf\u{e9} \u{4e2d}.log", "a, b ,c.log", "two  blanks.log"]);
+                let awkward = paths[0].with_file_name(format!("n{}-{}", i, name));
+                if std::fs::copy(&paths[0], &awkward).is_ok() { paths.push(awkward.clone()); awkward } else { paths[0].clone() }
+            } else { paths[0].clone() };
+            let q = gq.text.replacen("FROM t", &format!("FROM t::'{}'", from_path.display()), 1);
+            (q, Vec::new(), None, vec![from_path])
         } else if mode == 1 {
             (gq.text.clone(), vec!["--stdin".to_owned()], Some(std::fs::read(&paths[0]).unwrap_or_default()), vec![paths[0].clone()])
         } else {
@@ -202,8 +209,12 @@ pub fn layout_stream(run: &mut Run, rng: &mut Rng, n: usize) {
     const TAILS: &[&str] = &["", ";", " ;", " -- done; really", " -- it's ; fine\n", ";\n-- trailing; comment", "\n"];
     let defs_path = tmp_file(DEF.as_bytes());
     let data_path = tmp_file(DATA);
+    // the same data under a name that looks like syntax: inside `FROM t::'…'` it is taken verbatim (commas, blanks, `--`, `;`)
+    let awkward_path = data_path.with_file_name(format!("lay{}, out --x;y WHERE.log ", std::process::id()));
+    let have_awkward = std::fs::write(&awkward_path, DATA).is_ok();
     for _ in 0..n {
-        let base = *rng.pick(BASES);
+        let base_owned = if have_awkward && rng.chance(1, 4) { (*rng.pick(BASES)).replacen(" FROM t", &format!(" FROM t::'{}'", awkward_path.display()), 1) } else { (*rng.pick(BASES)).to_owned() };
+        let base = base_owned.as_str();
         let mut outputs: Vec<(String, Vec<String>)> = Vec::new();
         for variant in 0..3 {
             let mut text = if variant == 0 { base.to_owned() } else { relayout_keywords(rng, base) };
@@ -240,6 +251,7 @@ pub fn layout_stream(run: &mut Run, rng: &mut Rng, n: usize) {
     }
     let _ = std::fs::remove_file(defs_path);
     let _ = std::fs::remove_file(data_path);
+    let _ = std::fs::remove_file(awkward_path);
     run.notes.push("command-line layout stream: statements with `;` and `--` inside string literals, comments containing `;` and quotes, trailing semicolons and re-laid variants given to the real program with -c / --command-file; stdout = the library's lines, equal across the variants".to_owned());
 }
 
